@@ -152,7 +152,7 @@ impl Check for C05 {
             "deep-nesting" => "input_deep_nesting",
             _ => "input_replayed",
         });
-        st.inc(if rc.spec.kind == crate::spec::SpecKind::Static { "spec_derive_generated" } else { "spec_dynamic" });
+        st.inc(if rc.spec.kind != crate::spec::SpecKind::Dyn { "spec_derive_generated" } else { "spec_dynamic" });
         // (1) no call unwinds
         if let Some(p) = tr.panic() {
             fail!("panic", "an API call panicked: {}\n trace: {}", p, tr.short(40));
